@@ -222,7 +222,8 @@ SuccessProps(w, call) ==
   LET m == Inner(call) IN
   (CASE m = "withdraw" -> {"C02", "C05"}
      [] m = "fee_withdraw" -> {"C02", "C11"}
-     [] m = "recover" -> {"C02", "C07"}
+     \* (a refund that cannot be re-sent although it should be: the staked asset / LST it carries never reaches its receiver)
+     [] m = "recover" -> {"C02", "C07", "C01", "C03"}
      [] m = "submit_batch" -> {"C06"}
      \* (a payment at or above the minimum that mints a non-zero amount is accepted: C04; to the chosen recipient: C03)
      [] m = "liquid_stake" -> {"C04", "C03"}
